@@ -187,7 +187,7 @@ def real_gpg(ctx, r, quick):
     kd = gpgenv.keydata()
     old_home = os.environ.get('GNUPGHOME')
     st = {'signed_and_verified': 0, 'plain': 0, 'signing_failure_reported': 0, 'runs': 0}
-    n = 60 if quick else 240
+    n = 90 if quick else 360
     try:
         with gpgenv.GpgHome() as usable, gpgenv.GpgHome() as pubonly, ET.Scratch() as sc:
             usable.import_key(kd.PRIVATE_KEY)
@@ -222,7 +222,7 @@ def real_gpg(ctx, r, quick):
                     res = None
                     if via_cli:
                         # the command-line front end: gemato update [--sign | --no-sign] [--openpgp-id KEY]
-                        argv = ['gemato', 'update', '--hashes', 'SHA256 SHA512', '--force-rewrite']
+                        argv = ['gemato', r.choice(['update', 'update', 'create']), '--hashes', 'SHA256 SHA512', '--force-rewrite']
                         argv += ['--sign'] if sign is True else ['--no-sign'] if sign is False else []
                         argv += ['--openpgp-id', keyid] if keyid else []
                         rc_cli, items = PT.run_cli_collect(argv + [b])
